@@ -369,6 +369,28 @@ def cutOk : Monitor := fun cfg e t r =>
 
 end C16
 
+/-! ### C02 — the deadline envelope under the weaker guard `quietTail`; proofs in `Props/C02Tail.lean` -/
+
+namespace C02
+
+/-- requests during which time may pass: attempts, sleeps, and the callbacks that run BEFORE the
+    library measures the remaining time -/
+def free : Req → Bool
+  | .op _ | .sleeper .. | .classify _ | .resultClassify _ | .stratRecordFailure .. => true
+  | _ => false
+
+/-- time passes only in `free` requests -/
+def quietTail (t : Trace) : Bool := t.all fun x => free x.1 || x.2.dur == 0
+
+/-- `Mon.C02.ok` with the weaker guard -/
+def okTail : Monitor := fun cfg e t _ =>
+  if hasLoop cfg e && quietTail t then
+    let s := run cfg (retryTrace t)
+    !s.bad && (!honestSleeper t || decide (s.slept ≤ cfg.deadline))
+  else true
+
+end C02
+
 end Mon
 
 namespace MonitorsNR
@@ -379,7 +401,8 @@ open Mon
 def all : List (String × String × Monitor) :=
   [ ("C04", "no_retry_call", C04NR.ok), ("C11", "no_retry_execute", C11NR.ok),
     ("C11", "attempts_eq_invocations", C11H.ok), ("C04", "exhausted_stop_reason", C04S.ok),
-    ("C09", "once_exact", C09.onceExact), ("C16", "cut_by_propagating_error", C16.cutOk) ]
+    ("C09", "once_exact", C09.onceExact), ("C16", "cut_by_propagating_error", C16.cutOk),
+    ("C02", "deadline_tail_quiet", C02.okTail) ]
 
 end MonitorsNR
 end Redress
